@@ -6,6 +6,7 @@
 //!   cvh drive  <spec> --out trace.ndjson [--n N] [opts]                 (code -> spec traces)
 mod build;
 mod common;
+mod isolate;
 mod observe;
 mod props;
 
@@ -18,8 +19,8 @@ fn main() {
     let code = match (args.cmd.as_str(), args.sub.as_str()) {
         ("replay", "range") => props::range::replay(&args),
         ("drive", "range") => props::range::drive(&args),
-        ("replay", "cfb") => props::cfb::replay(&args),
-        ("drive", "cfb") => props::cfb::drive(&args),
+        ("replay", "cfb") => isolate::run_replay(&args, props::cfb::replay),
+        ("drive", "cfb") => isolate::run_drive(&args, props::cfb::drive),
         _ => {
             eprintln!("unknown command {} {}", args.cmd, args.sub);
             2
